@@ -213,7 +213,7 @@ def proj_str(proj):
         elif e[0] == "len":
             s += ".len"
         elif e[0] == "ix":
-            s += "[_]"
+            s += "[%s]" % (e[1] if len(e) > 1 else "_")
         else:
             s += ".%s" % (e,)
     return s
